@@ -375,3 +375,71 @@ theorem poke_witness : ∃ s, ParkedWitness ⟨true, false, true⟩ false false 
 example : (runActs current (init true true 2) drainTrace).map sig = some ⟨.retn, .future, true, .wait, true, 0, true, false, .idle, .ret, .idle⟩ := by decide
 
 end Mieru.UClose
+
+namespace Mieru.UClose
+open Act EnvAct
+
+/-- a state in which the event loop has left, every caller of Close is idle or has returned, Mux.Close is
+    idle or has returned and every session is closed with its loops gone: nothing can move -/
+theorem settled_quiescent (sh : Shape) (s : St) (hl : s.loop = .exited)
+    (hmux : s.mux = .idle ∨ s.mux = .ret) (hcl : ∀ k, k < s.m → s.cl k = .idle ∨ s.cl k = .ret)
+    (hs : ∀ i, i < s.n → gone s.closed s.run s.net i) : Quiescent sh s := by
+  intro t st
+  cases st with
+  | finClose i hi _ hc => rw [(hs i hi).1] at hc; cases hc
+  | loopExit i hi _ hr => have := (hs i hi).2.1; omega
+  | netWake i hi hn _ => have := (hs i hi).2.2; omega
+  | lock k hk h _ => rcases hcl k hk with e | e <;> rw [e] at h <;> cases h
+  | chkDone k hk h _ => rcases hcl k hk with e | e <;> rw [e] at h <;> cases h
+  | chkOpen k hk h _ => rcases hcl k hk with e | e <;> rw [e] at h <;> cases h
+  | poke1 k hk h => rcases hcl k hk with e | e <;> rw [e] at h <;> cases h
+  | sessClose k i b hk h _ => rcases hcl k hk with e | e <;> rw [e] at h <;> cases h
+  | sessEnd k i b hk h _ => rcases hcl k hk with e | e <;> rw [e] at h <;> cases h
+  | wgWait k i b hk h _ _ _ _ => rcases hcl k hk with e | e <;> rw [e] at h <;> cases h
+  | closeDone k hk h => rcases hcl k hk with e | e <;> rw [e] at h <;> cases h
+  | poke2 k hk h => rcases hcl k hk with e | e <;> rw [e] at h <;> cases h
+  | unlock k hk h => rcases hcl k hk with e | e <;> rw [e] at h <;> cases h
+  | muxCancel h => rcases hmux with e | e <;> rw [e] at h <;> cases h
+  | muxCall _ h _ => rcases hmux with e | e <;> rw [e] at h <;> cases h
+  | muxClosed h _ => rcases hmux with e | e <;> rw [e] at h <;> cases h
+  | muxWait h hx => rcases hmux with e | e <;> rw [e] at h <;> cases h
+  | _ => simp_all
+
+/-- a server's stream underlay with two sessions (one of them with a loop blocked in a network write, the
+    other being closed by its application at the same time), the event loop parked in a read, then
+    `Mux.Close`: every actor runs to the end -/
+def fullTrace : List Act := [env addSession, env addSession, own 0, own 0, own 0, env (netBlock 0), env (sessCloseStart 1),
+  env muxClose, own 1, own 1, own 3, own 3, own 3,
+  -- the loop is woken by the first poke, sees the cancelled context, cleans, returns, calls Close itself
+  own 0, own 0,
+  own 3, own 4, own 4, own 4, own 4, own 3, own 3, own 5, own 5, own 5, own 3, own 3, own 3, own 3, own 3,
+  own 0, own 0, own 0, own 2, own 2, own 2, own 0, own 1, own 1]
+
+
+/-- the sessions' part of a state with two sessions -/
+def sess2 (s : St) : List (Bool × Bool × Nat × Nat) := [(s.req 0, s.closed 0, s.run 0, s.net 0), (s.req 1, s.closed 1, s.run 1, s.net 1)]
+
+theorem full_run_witness : ∃ s, Reach current true true 2 s ∧ s.mux ≠ .idle ∧ Quiescent current s ∧ s.n = 2 ∧ s.mux = .ret := by
+  match h : runActs current (init true true 2) fullTrace with
+  | none => exact absurd h (by decide)
+  | some t =>
+    have e : (runActs current (init true true 2) fullTrace).map sig =
+        some ⟨.exited, .past, true, .ret, true, 2, true, true, .idle, .ret, .idle⟩ := by decide
+    have e' : (runActs current (init true true 2) fullTrace).map sess2 = some [(true, true, 0, 0), (true, true, 0, 0)] := by decide
+    rw [h] at e e'
+    simp only [Option.map_some, Option.some.injEq, sig, Sig.mk.injEq] at e
+    simp only [Option.map_some, Option.some.injEq, sess2, List.cons.injEq, Prod.mk.injEq, and_true] at e'
+    obtain ⟨e1, _, _, e4, _, e6, _, _, e9, e10, e11⟩ := e
+    obtain ⟨⟨_, a2, a3, a4⟩, _, b2, b3, b4⟩ := e'
+    have hr := runActs_reach fullTrace Reach.init h
+    have hm := (reach_inv hr).m
+    refine ⟨t, hr, by rw [e4]; simp, ?_, e6, e4⟩
+    refine settled_quiescent current t e1 (Or.inr e4) (by rw [hm]; exact callers_le3 (by omega) (Or.inl e9) (Or.inr e10) (Or.inl e11)) ?_
+    intro i hi
+    rw [e6] at hi
+    match i with
+    | 0 => exact ⟨a2, a3, a4⟩
+    | 1 => exact ⟨b2, b3, b4⟩
+    | i + 2 => omega
+
+end Mieru.UClose
